@@ -10,11 +10,19 @@ RULE = ('A case is (profile of the 14, user capabilities, server capability list
         'session-id; order of "server hello processed" vs "client hello written" forced through the _send_ready oracle: '
         'client_first, server_first, server_first_blocked (not writable until _post_connect returned), poll k; hello cut at an offset; '
         'fault: none, no hello, other message, EOF, write refused, capability without text). The real _post_connect runs over an '
-        'in-memory transport with the real worker thread. distinct = distinct case; non-trivial = the server sends a hello or a fault is injected.')
+        'in-memory transport with the real worker thread. distinct = distinct case; non-trivial = the server sends a hello or a fault is injected. '
+        'Scheduled cases (kind sched): the real _post_connect (thread M), the real worker (W) and a scripted server run under the deterministic '
+        'scheduler of tools/harness/sched.py with a schedule point at every access to _listeners, _hello_pending, _q, _base, init_event, _id, '
+        '_server_capabilities, connected, select/read/write/close; a case is (scenario, decision list): server script (hello whole / cut at a '
+        'position class / two hellos / other message / not XML / garbage / EOF / read error / nothing), readiness gate (always, k polls, after the '
+        'dispatch, after the return), write faults, eager deadlines; small scenarios are enumerated depth-first with a pre-emption bound, the '
+        'others run under seeded random schedules. Every effect trace is validated against NegotiateSched.fstep.')
 ASSUMES = ['the transport delivers the server octets in order; threading.Event.wait(timeout) returns no later than the deadline plus scheduling latency',
            'a profile is one of the 14 modules of ncclient/devices; nc_params capabilities are strings']
 TRUSTED = ['modelled, not verified: lxml parsing/serialisation of the hello documents (trees are compared through an independent reader)',
-           'tools/harness/fakesession.py in-memory transport and selector shim']
+           'tools/harness/fakesession.py in-memory transport and selector shim',
+           'tools/harness/sched.py, neg_sched.py, neg_check.py (scheduler, logging fields, effect log -> label mapping); CPython executes the code '
+           'between two instrumented points atomically with respect to the other managed threads']
 
 BASE_NS = 'urn:ietf:params:xml:ns:netconf:base:1.0'
 PROFILES = ['alu', 'ciena', 'csr', 'default', 'ericsson', 'h3c', 'hpcomware', 'huawei', 'huaweiyang', 'iosxe', 'iosxr', 'junos', 'nexus', 'sros']
@@ -503,10 +511,17 @@ def run(ctx):
                     ctx.fail(case, what, sig=None, expected=exp, actual=act)
     quick = ctx.tier == 'quick'
     # (0) corpus
+    sched_corpus = []
     for p in sorted(glob.glob(os.path.join(paths.CORPUS, 'C05', '*.json'))):
         case = json.load(open(p))['case']
         if case.get('kind') == 'connect':
             obs, probs, mism = run_connect(ctx, case); ctx.count(case); report_connect(ctx, case, obs, probs, mism)
+        elif case.get('kind') == 'sched':
+            sched_corpus.append(case)
+    # (0') the two-thread exchange under the deterministic scheduler, validated against NegotiateSched.fstep
+    from harness import neg_check
+    n_sched = neg_check.check(ctx, n_random=1200 if quick else 20000, dfs_bound=2 if quick else 3, dfs_cap=600 if quick else 12000, corpus=sched_corpus)
+    ctx.extra['scheduled_runs'] = n_sched
     # (1) client capability lists: all 14 profiles x user additions (model vs get_capabilities vs Capabilities keys)
     calls, metas = [], []
     for name in PROFILES:
@@ -582,6 +597,9 @@ def run(ctx):
 
 def search(ctx, seeds):
     rng = ctx.rng
+    from harness import neg_check
+    f = neg_check.search(ctx, seeds)
+    if f: return f
     tries = [c for c in seeds if c.get('kind') == 'connect']
     for name in PROFILES:
         tries.append(dict(kind='connect', profile=name, extra=[], server_caps=[B10, B11], sid=1, order='server_first_blocked'))
@@ -603,11 +621,21 @@ def search(ctx, seeds):
 
 def reproduce(finding):
     case = finding['witness']
+    if case.get('kind') == 'sched':
+        from harness import neg_check, neg_sched
+        try:
+            sc = neg_check.run_case(neg_check.normalise(case['spec']), decisions=list(case['decisions']), rng_after=False)
+        finally:
+            neg_sched.uninstall()
+        return neg_check.oracle(sc) is not None
     obs = run_impl(case)
     return bool(oracle(case, obs)) and sig_of(case, obs) == finding.get('sig')
 
 def replay(doc):
     case = doc['case']
+    if case.get('kind') == 'sched':
+        from harness import neg_check
+        return neg_check.replay(doc)
     if case.get('kind') == 'plumbing':
         obs = plumbing_case(case); probs = plumbing_oracle(case, obs)
         print('case     :', case); print('observed :', obs); print('problems :', [p[0] for p in probs] or 'none')
